@@ -186,6 +186,27 @@ func runCase(rt *rapid.T) {
 		mu.Unlock()
 		return nil
 	})
+	// With the early-attestation-fetch feature the scheduler hands the attester definitions of a slot to a
+	// fetch-only receiver when a head event arrives. The receiver here keeps nothing of what it is handed
+	// intact (as any other subscriber may): what is triggered later must not be affected.
+	headEvents := 0
+	earlyFetch := featureOn("fetch_att_on_block") || featureOn("fetch_att_on_block_with_delay")
+	if earlyFetch {
+		sched.RegisterFetcherFetchOnly(func(_ context.Context, _ core.Duty, defs core.DutyDefinitionSet, _ string, _ eth2p0.Root) error {
+			for pk, def := range defs {
+				if ad, ok := def.(core.AttesterDefinition); ok {
+					ad.PubKey[0], ad.PubKey[1] = 0xde, 0xad
+					ad.CommitteeIndex += 77
+					defs[pk] = ad
+				}
+			}
+			for pk := range defs {
+				delete(defs, pk)
+				break
+			}
+			return nil
+		})
+	}
 	runDone := make(chan struct{})
 	go func() { defer close(runDone); _ = sched.Run() }()
 
@@ -208,6 +229,17 @@ func runCase(rt *rapid.T) {
 			claimed[s] = true
 		}
 		qcancel()
+		if earlyFetch && rapid.IntRange(0, 2).Draw(rt, "headEvent") == 0 {
+			// a head event for this slot, some time into it (before or after the attester offset)
+			at := time.Duration(rapid.IntRange(0, 11000).Draw(rt, "headEventMs")) * time.Millisecond
+			otherUsers.Add(1)
+			go func() {
+				defer otherUsers.Done()
+				time.Sleep(time.Until(slotStart.Add(at)))
+				sched.HandleHeadEvent(context.Background(), eth2p0.Slot(s), eth2p0.Root{1}, "bn")
+			}()
+			headEvents++
+		}
 		faultDraw := rapid.IntRange(0, 9).Draw(rt, "fault")
 		if calm && faultDraw < 2 {
 			faultDraw = 4 // a calm run has no beacon errors or delays, only other users of the duties cache
@@ -454,7 +486,7 @@ func runCase(rt *rapid.T) {
 	nontrivial := (failures > 0 || skipped > 0 || lifecycle) && boundary
 	sort.Strings(ts)
 	vstat.Case(fmt.Sprintf("%d/%d/%d/%d|%v|%v", spe, nEpochs, nCluster, startSlot, script, strings.Join(ts, ",")), nontrivial,
-		cls("failed_resolution", failures > 0), cls("slow_beacon", slowdowns > 0), cls("skipped_slot", skipped > 0), cls("activation_or_exit", lifecycle), cls("foreign_leak", bn.LeakForeign && nForeign > 0), cls("beacon_assigns_inactive_cluster_validators", inactiveAssigned), cls("other_duties_cache_user", lookAheads > 0), cls("calm_beacon_node", calm), cls("complete_slots_checked", complete > 0), cls("reorg_event", len(reorgs) > 0), "features:"+strings.Join(features, "+"))
+		cls("failed_resolution", failures > 0), cls("slow_beacon", slowdowns > 0), cls("skipped_slot", skipped > 0), cls("activation_or_exit", lifecycle), cls("foreign_leak", bn.LeakForeign && nForeign > 0), cls("beacon_assigns_inactive_cluster_validators", inactiveAssigned), cls("other_duties_cache_user", lookAheads > 0), cls("calm_beacon_node", calm), cls("complete_slots_checked", complete > 0), cls("reorg_event", len(reorgs) > 0), cls("head_events_with_mutating_fetch_only_receiver", headEvents > 0), "features:"+strings.Join(features, "+"))
 	vstat.Count("triggers", int64(len(trigs)))
 	vstat.Count("complete_duties_checked", int64(complete))
 	if nontrivial && skipped > 0 && vstat.WantSample("skipped") {
